@@ -33,6 +33,12 @@ CHECKS = {
   text="Every message length 0..300 for six hashes, every HMAC key length 0..200, every 2-way split of inputs <= 80 bytes through the streaming adapters are enumerated; random contents, multi-way chunkings, PBKDF2 parameters and mnemonics are generated; outputs must equal independent implementations of FIPS 180-4, RIPEMD-160, RFC 2104 and RFC 8018.",
   note="Trusted: refimpl::hashes (NIST/RFC known-answer vectors; differential against python hashlib/hmac/pbkdf2_hmac in its unit tests).",
   ref="DESIGN.md §3 C13"),
+ "C14": dict(
+  technique="model-based property testing: bounded-exhaustive opcode x stack enumeration plus random programs (proptest genes, depth-aware grammar) executed in lock-step against an independent Bitcoin SV interpreter model",
+  text="About 0.8 M enumerated (opcode, stack) cases per run over an 18-value alphabet and every conditional shape, plus tens of thousands of random nested programs; after each Iterator::next the library's main and alt stacks must equal the reference model's and errors must occur at exactly the model's failing step. Exploration with an explicit reference model is the level the property asks for (it names the bounded-exhaustive space itself).",
+  note="Trusted: refimpl::interp_model (written from the semantics table in DESIGN Appendix A without reading the library; 409 hand-computed rows), refimpl::hashes. Not asserted: 2MUL/2DIV, CLTV/CSV, reserved codes, VERIF/VERNOTIF, CHECKSIG family, index operands > 4 bytes.",
+  ref="DESIGN.md §3 C14, Appendix A"),
+
  "C20": dict(
   technique="property-based testing (proptest) plus exhaustive enumeration over lengths, differential against a FIPS-197 reference cipher; round-trip and rejection oracles",
   text="Four modes, every message length 0..80, counter values at the carry boundaries, truncated ciphertexts and ciphertexts with invalid padding built with the reference cipher; ciphertext must equal the reference, decrypt must invert, invalid CBC input must be rejected.",
